@@ -40,7 +40,9 @@ PROPS = {
         "level_text": "Proof: C07_round_eq_spec (Lean 4, all integers x, all increments > 0 odd or even, all nine modes) shows the "
                       "coded integer rounder equals RoundNumberToIncrement; corollaries give neighbour/bracket/tie/negation facts. "
                       "The model is tied to /repo by an exhaustive small-space run through the hook plus boundary-biased runs through "
-                      "Instant::round and PlainTime::round.",
+                      "Instant::round and PlainTime::round, and until / since of PlainTime, Instant and PlainDateTime with a smallest "
+                      "unit for every mode in both directions (since() applies the mode as if negated) on differences on, next to "
+                      "and between ties.",
         "level_note": "Trusted: Lean kernel (+propext, Classical.choice, Quot.sound), the hand model of rounding.rs/IsoTime::round/"
                       "round_instant, the harness and diff. The f64 instantiation of the rounder is not covered by this check.",
         "lean_modules": ["TemporalModel.Props.C07"],
